@@ -456,6 +456,13 @@ pub type Typing = Vec<(T, T)>;
 /// Run M-infer on the whole DAG. `program`: force the root to 1 -> 1. `pin`: additionally unify the
 /// root arrow with the given complete types.
 pub fn infer(dag: &Dag, program: bool, pin: Option<(&T, &T)>) -> Result<Typing, Unsat> {
+    let r = infer_masked(dag, program, pin, None)?;
+    Ok(r.into_iter().map(|x| x.expect("all visible")).collect())
+}
+
+/// As `infer`, but the occurs check and the extraction only look at the arrows of `visible` nodes
+/// (the nodes a finalisation walk actually visits; every node's constraints still take part).
+pub fn infer_masked(dag: &Dag, program: bool, pin: Option<(&T, &T)>, visible: Option<&[bool]>) -> Result<Vec<Option<(T, T)>>, Unsat> {
     let mut inf = Infer::new();
     for i in 0..dag.nodes.len() {
         inf.constrain(dag, i).map_err(|_| Unsat::Clash { at: i })?;
@@ -472,13 +479,30 @@ pub fn infer(dag: &Dag, program: bool, pin: Option<(&T, &T)>) -> Result<Typing, 
         inf.unify(rs, a).map_err(|_| Unsat::Clash { at: dag.root() })?;
         inf.unify(rt, b).map_err(|_| Unsat::Clash { at: dag.root() })?;
     }
-    let roots: Vec<u32> = inf.arrows.iter().flat_map(|(s, t)| [*s, *t]).collect();
+    let vis = |i: usize| visible.map(|v| v[i]).unwrap_or(true);
+    let roots: Vec<u32> = inf.arrows.iter().enumerate().filter(|(i, _)| vis(*i)).flat_map(|(_, (s, t))| [*s, *t]).collect();
     if inf.cyclic(&roots) {
         return Err(Unsat::Occurs);
     }
     let mut memo = HashMap::new();
     let arrows = inf.arrows.clone();
-    Ok(arrows.iter().map(|(s, t)| (inf.extract(*s, &mut memo), inf.extract(*t, &mut memo))).collect())
+    Ok(arrows
+        .iter()
+        .enumerate()
+        .map(|(i, (s, t))| if vis(i) { Some((inf.extract(*s, &mut memo), inf.extract(*t, &mut memo))) } else { None })
+        .collect())
+}
+
+/// As `local_rule_ok`, but clauses that mention a child the walk did not visit are skipped.
+pub fn local_rule_ok_masked(dag: &Dag, i: usize, arrows: &[(T, T)], visible: &[bool]) -> Result<(), String> {
+    if let Op::Disconnect(l, Some(r)) = &dag.nodes[i] {
+        if !visible[*r] {
+            let mut d2 = dag.clone();
+            d2.nodes[i] = Op::Disconnect(*l, None);
+            return local_rule_ok(&d2, i, arrows);
+        }
+    }
+    local_rule_ok(dag, i, arrows)
 }
 
 /// Check the local typing rule of node `i` on given arrows (used on the *library's* arrows).
